@@ -33,7 +33,10 @@ CHECKS = {
         'their output — and must not change any operation; the rewriting transformers (expand_composite, eject_z, eject_phased_paulis, the single-qubit and k-qubit merging '
         'passes, drop_negligible_operations, optimize_for_target_gateset for CZ / sqrt-iSWAP, unroll_circuit_op, add_dynamical_decoupling, defer_measurements) are compared '
         'by the Lean reference semantics: ordered product up to global phase (C01) or exact joint record distribution (C02); tags_to_ignore, deep and argument purity are '
-        'checked on the objects.',
+        'checked on the objects; an equal circuit with the operations of every moment listed in reverse must have the same distribution (moment-order independence). '
+        'Props.C06Rules: the commutation rules the phase-ejecting passes rely on, proved on the documented matrices for every exponent over any commutative ring with a lawful phase map '
+        '(Z**a through PhasedX lowers the phase exponent, Z**a is absorbed by PhasedXZ, Z powers commute with CZ**t and change sides through swap-like gates, a Z**a after a pending pi pulse '
+        'moves its axis by a/2, a Pauli X passes CZ**t by inverting it and leaving Z**t on the other qubit); the rule stream checks that eject_z / eject_phased_paulis emit exactly those right-hand sides.',
         'Trusted: Lean kernel; harness + drivers; the abstraction of an operation to the wires it touches; cirq.unitary(op) (C03) and unroll_circuit_op (C12); rewriting '
         'transformers are T2 only; gauge compiling, randomized measurements, qubit management, lightcone and symbolize transformers are not covered yet (partial).',
         'Lean 4 proof (trace-theory projection lemma + commutation) + differential correspondence through the Lean reference semantics',
